@@ -292,6 +292,14 @@ Section Core.
     | None => k <- cls_of (fst p) ;; ret (class_default k a)
     end.
 
+  (* `value is current` for mutable objects (identity of scalars is irrelevant:
+     the copy holds the very same scalar) *)
+  Definition same_object (cur : option val) (v : val) : bool :=
+    match cur, v with
+    | Some (VRef x), VRef y => x =? y
+    | _, _ => false
+    end.
+
   Definition initializing (d : list (aid * val)) : bool :=
     match assoc A_INITIALIZING d with Some (VBool true) => true | _ => false end.
 
@@ -353,6 +361,11 @@ Section Core.
      | None => ret tt end) ;;;
     let copied := negb (inplace || c_dnc k) in
     l' <- (if copied then (v <- deepcopy ct (VRef l) ;; loc_of v) else ret l) ;;
+    (* the object currently held was copied along with the instance: use the copy *)
+    value <- (if copied && same_object (assoc a (snd p)) value
+              then (p' <- read_inst l' ;;
+                    ret (match assoc a (snd p') with Some v' => v' | None => value end))
+              else ret value) ;;
     thawed l' copied
       (raw_setattr l' a value ;;;
        (if skip then ret tt else invalidate_attrs l' a)) ;;;
